@@ -407,6 +407,9 @@ Definition in_exec_block (st : vm) (this : option value) (run : vm -> res * vm) 
   let st5 := set_cur_scope st4 (end_scope (end_scope (cur_scope st4))) in
   (r, st5).
 
+(* the reserved method name under which a type's custom constructor body is kept: 新建 *)
+Definition CTOR : name := [26032; 24314]%Z.
+
 Definition exec_stmt_with (callee : vm -> list stmt -> res * vm) (st : vm) (s : stmt) : res * vm :=
   match s with
   | SMark z => (Ok, emit st (EMark z))
@@ -441,8 +444,27 @@ Definition exec_stmt_with (callee : vm -> list stmt -> res * vm) (st : vm) (s : 
       match find_element st c with                        (* evalNewObject *)
       | None => (Err E_NameNotDefined, st)
       | Some (VClass cn ms) =>
-          match declare st x (VObj cn ms) false None with
-          | None => (Err E_NameRedeclared, st)
+          (* a custom constructor (如何新建c？, kept in the method table under the reserved name CTOR) runs first, on a
+             frame of the type's home module — evalConstructorDeclareStmt captured that module when it was declared *)
+          let '(rc, stc) :=
+            match assoc_find ms CTOR with
+            | None => (Ok, st)
+            | Some cbody =>
+                match find_with_module st cn with
+                | None => (Err E_NameNotDefined, st)
+                | Some (_, hm) =>
+                    let st1 := push_frame st hm in
+                    let '(r, st2) := in_exec_block st1 (Some (VObj cn ms)) (fun s => callee s cbody) in
+                    match r with
+                    | Ok => (Ok, pop_frame st2)
+                    | other => (wrap_exc other, st2)
+                    end
+                end
+            end in
+          match rc with
+          | Ok =>
+          match declare stc x (VObj cn ms) false None with
+          | None => (Err E_NameRedeclared, stc)
           | Some st0 =>
               match find_with_module st0 cn with           (* execMethodFunction *)
               | None => (Err E_NameNotDefined, st0)
@@ -458,6 +480,8 @@ Definition exec_stmt_with (callee : vm -> list stmt -> res * vm) (st : vm) (s : 
                       end
                   end
               end
+          end
+          | other => (other, stc)
           end
       | Some VNum => (Err E_ExactParams, st)          (* a number is constructable, with exactly one parameter *)
       | Some _ => (Err E_InvalidParamType, st)
